@@ -59,7 +59,7 @@ def rule_identifier_table(ck: Check, repo: Repo) -> None:
                 added = any(e[-1] == ("ids-add", STRIP) or (e[0] == "each" and e[2] == ("ids-add", STRIP)) or
                             _innermost(e) == ("ids-add", STRIP) for e in it.events)
                 if text in (f"{{identifier}}.intersection({coll})",
-                            f"any((i in {coll} for i in {{identifier}}))", f"{{identifier}} & set({coll})",
+                            f"any(i in {coll} for i in {{identifier}})", f"{{identifier}} & set({coll})",
                             f"{{identifier}} & {coll}.keys()"):
                     return ("or", f"{base}_id", f"{base}_stripped") if added else f"{base}_id"
                 if text in (f"{{identifier, {STRIP}}}.intersection({coll})", f"{{{STRIP}, identifier}}.intersection({coll})"):
